@@ -187,7 +187,8 @@ def check_nullable_key(ck, prog, config, clause, field='digest_uncompressed', fl
                 if s.k == 'decl' and s.var.op == chunk.split('->')[0] and s.e is not None and \
                         not any(x.k == 'call' for x in walk(s.e)):
                     p = pstr(s.e, subst)
-                    owner = p.lstrip('&*').split('->')[0].split('.')[0]
+                    if const_value(s.e) is None and strip(s.e).k != 'null':
+                        owner = p.lstrip('&*').split('->')[0].split('.')[0]
             patterns = [
                 ('flag', lambda op, lp, rp, owner=owner: lp.endswith('->' + flag) and op == '!=' and rp == '#0' and
                  (owner is None or lp.lstrip('&*').split('->')[0] == owner)),
